@@ -289,6 +289,8 @@ pub enum SigMut {
     /// bytes (first count byte = `bound` > omega): a decoder that trusts a count byte before checking it
     /// against omega walks its index past the end of the section
     HintRunaway { bound: u8 },
+    /// the index list of one polynomial starts with position 0 listed twice (counts raised by one)
+    HintLeadingZeroTwice { poly: u8 },
     RandomZ(u64),
     RandomHint(u64),
     RandomAll(u64),
@@ -311,6 +313,7 @@ pub fn sig_mut() -> impl Strategy<Value = SigMut> {
         2 => (any::<u8>(), 1u8..4).prop_map(|(poly, by)| SigMut::CountRaise { poly, by }),
         1 => (any::<u8>(), any::<bool>()).prop_map(|(nth, high)| SigMut::IndexEdge { nth, high }),
         1 => any::<u8>().prop_map(|bound| SigMut::HintRunaway { bound }),
+        2 => any::<u8>().prop_map(|poly| SigMut::HintLeadingZeroTwice { poly }),
         1 => any::<u64>().prop_map(SigMut::RandomZ),
         1 => any::<u64>().prop_map(SigMut::RandomHint),
         1 => any::<u64>().prop_map(SigMut::RandomAll),
@@ -335,6 +338,7 @@ impl SigMut {
             SigMut::CountRaise { .. } => "CountRaise",
             SigMut::IndexEdge { .. } => "IndexEdge",
             SigMut::HintRunaway { .. } => "HintRunaway",
+            SigMut::HintLeadingZeroTwice { .. } => "HintLeadingZeroTwice",
             SigMut::RandomZ(_) => "RandomZ",
             SigMut::RandomHint(_) => "RandomHint",
             SigMut::RandomAll(_) => "RandomAll",
@@ -463,6 +467,31 @@ pub fn apply_mut(p: &Params, sig: &[u8], m: &SigMut) -> Vec<u8> {
             let b = (om as u32 + 1 + (u32::from(*bound) * (250 - om as u32)) / 256) as u8;
             for j in 0..p.k {
                 s[hoff + om + j] = b.saturating_add(j as u8);
+            }
+        }
+        SigMut::HintLeadingZeroTwice { poly } => {
+            // decode, force h[i][0] = 1, re-encode canonically, then insert a second 0 at the head of that
+            // polynomial's index list (every later index byte shifts by one, counts from i on grow by one)
+            let f = rf::sig_decode(p, sig);
+            if let Ok(mut h) = f.h {
+                let i = *poly as usize % p.k;
+                let w: i64 = h.iter().map(|x| x.iter().sum::<i64>()).sum();
+                if h[i][0] == 1 || (w as usize) < om {
+                    h[i][0] = 1;
+                    let w: usize = h.iter().map(|x| x.iter().sum::<i64>() as usize).sum();
+                    if w < om {
+                        s = rf::sig_encode(p, &f.c_tilde, &f.z, &h);
+                        let start = if i == 0 { 0 } else { s[hoff + om + i - 1] as usize };
+                        let used_n = s[hoff + om + p.k - 1] as usize;
+                        for j in (start + 1..=used_n).rev() {
+                            s[hoff + j] = s[hoff + j - 1];
+                        }
+                        s[hoff + start] = 0;
+                        for j in i..p.k {
+                            s[hoff + om + j] += 1;
+                        }
+                    }
+                }
             }
         }
         SigMut::RandomZ(seed) => {
